@@ -77,7 +77,7 @@ Definition parser_model_ok (c : parser_case) : bool :=
    previous secret; only the two configured secrets are ever counted *)
 Definition parser_spec_ok (c : parser_case) : bool :=
   forallb (fun r =>
-    Bool.eqb (pr_ok r) (jwt_admit (jwt_ok_of (pc_table c)) (pc_secret c) (pc_prev c) (pr_tok r)) &&
+    Bool.eqb (pr_ok r) (jwt_accept (jwt_ok_of (pc_table c)) (pc_secret c) (pc_prev c) (pr_tok r)) &&
     Bool.eqb (pr_valid r) (pr_ok r) &&
     forallb (fun kv => (fst kv =? pc_secret c)%N || (fst kv =? pc_prev c)%N) (pr_counts r)) (pc_rows c).
 
@@ -105,7 +105,7 @@ Definition jwt_model_ok (c : jwt_case) : bool :=
 
 Definition jwt_spec_ok (c : jwt_case) : bool :=
   forallb (fun r =>
-    let adm := jwt_admit (jwt_ok_of (jc_table c)) (jc_secret c) (jc_prev c) (jr_tok r) in
+    let adm := jwt_accept (jwt_ok_of (jc_table c)) (jc_secret c) (jc_prev c) (jr_tok r) in
     Bool.eqb (jr_ran r) adm &&
     if adm then
       (jr_status r =? 200) &&
@@ -164,9 +164,9 @@ Definition guarded (m : bytes) : bool :=
 Definition sig_spec_at (c : sig_case) (now : Z) : bool :=
   if negb (guarded (q_method (sc_q c))) then sc_ran c
   else
-    let adm := sig_admit (mac_of c) (sha_of c) (sc_tol c) now (sc_q c) in
+    let adm := sig_accept (mac_of c) (sha_of c) (sc_tol c) now (sc_q c) in
     if adm then
-      (* admitted: the handler runs (behind the body decryption when the request announces one) *)
+      (* accepted: the handler runs (behind the body decryption when the request announces one) *)
       if sc_enc c then Bool.eqb (sc_ran c) (sc_decbody c) else sc_ran c
     else if sc_strict c then negb (sc_ran c) && (sc_status c =? 403)
     else sc_ran c.
@@ -215,7 +215,7 @@ Fixpoint rpc_spec_rows (strict : bool) (memo : list (N * N)) (steps : list rstep
       | None => negb (rs_code s =? 0) && rpc_spec_rows strict memo r
       | Some (app, token) =>
           let st := stored_of s app in
-          Bool.eqb (rs_code s =? 0) (rpc_admit strict true (rpc_view memo st app) token) &&
+          Bool.eqb (rs_code s =? 0) (rpc_accept strict true (rpc_view memo st app) token) &&
           rpc_spec_rows strict (rpc_memo memo st app) r
       end
   end.
